@@ -1,3 +1,4 @@
 pub mod names;
 pub mod soup;
 pub mod syntax;
+pub mod values;
